@@ -32,11 +32,6 @@ theorem MWF.nil : MWF [] := ⟨List.nodup_nil, fun _ _ h => by cases h⟩
 /-- related mappings, both well formed -/
 def MRel (a b : KVs) : Prop := MEqv a b ∧ MWF a ∧ MWF b
 
-def OptMRel : Option KVs → Option KVs → Prop
-  | some a, some b => MRel a b
-  | none, none => True
-  | _, _ => False
-
 theorem listIntoMap_eqv (d : Val) (wd : WF d) : ∀ {xs xs' : List Val}, Eqv (.seq xs) (.seq xs') →
     ∀ {acc acc' : KVs}, MRel acc acc' → OutEqv MRel (listIntoMap d xs acc) (listIntoMap d xs' acc') := by
   intro xs
@@ -57,21 +52,22 @@ theorem listIntoMap_eqv (d : Val) (wd : WF d) : ∀ {xs xs' : List Val}, Eqv (.s
     | seqCons _ _ => simp [listIntoMap, OutEqv]
     | map _ _ => simp [listIntoMap, OutEqv]
 
+theorem MRel.nil : MRel [] [] := ⟨MEqv.nil, MWF.nil, MWF.nil⟩
+
 theorem intoMap_eqv (d : Val) (wd : WF d) {v v' : Val} (h : Eqv v v') (wv : WF v) (wv' : WF v') :
-    OutEqv OptMRel (intoMap d v) (intoMap d v') := by
+    OutEqv MRel (intoMap d v) (intoMap d v') := by
   cases h with
-  | null => simp [intoMap, OutEqv, OptMRel]
-  | bool b => simp [intoMap, OutEqv, OptMRel]
-  | int i => simp [intoMap, OutEqv, OptMRel]
-  | float s => simp [intoMap, OutEqv, OptMRel]
-  | str s => simp [intoMap, OutEqv, OptMRel]
-  | seqNil => simp [intoMap, listIntoMap, Out.bind, OutEqv, OptMRel, MRel, MEqv.nil, MWF.nil]
+  | null => simp only [intoMap, OutEqv]; exact MRel.nil
+  | bool b => simp [intoMap, OutEqv]
+  | int i => simp [intoMap, OutEqv]
+  | float s => simp [intoMap, OutEqv]
+  | str s => simp [intoMap, OutEqv]
+  | seqNil => simp only [intoMap, listIntoMap, OutEqv]; exact MRel.nil
   | seqCons h1 h2 =>
     simp only [intoMap]
-    exact OutEqv.bind (listIntoMap_eqv d wd (.seqCons h1 h2) ⟨MEqv.nil, MWF.nil, MWF.nil⟩)
-      (fun a b hab => by simpa [OutEqv, OptMRel] using hab)
+    exact listIntoMap_eqv d wd (.seqCons h1 h2) MRel.nil
   | map h1 h2 =>
-    simp only [intoMap, OutEqv, OptMRel]
+    simp only [intoMap, OutEqv]
     exact ⟨⟨h1, h2⟩, WF.map_iff.mp wv, WF.map_iff.mp wv'⟩
 
 theorem eq_nil_of_lookup_none {b : KVs} (h : ∀ k, lookup k b = none) : b = [] := by
@@ -92,48 +88,17 @@ theorem okMap_eqv {x y : Out KVs} (h : OutEqv MEqv x y) :
     OutEqv Eqv (x.bind fun m => .ok (.map m)) (y.bind fun m => .ok (.map m)) :=
   OutEqv.bind h (fun a b hab => by simpa [OutEqv] using Eqv.map_iff.mpr hab)
 
-theorem mergeOptMapsWith_eqv (mk : KVs → KVs → TPath → Out KVs) (p : TPath) (hmk : MkCongr mk p)
-    {r r' l l' : Option KVs} (hr : OptMRel r r') (hl : OptMRel l l') :
-    OutEqv Eqv (mergeOptMapsWith mk r l p) (mergeOptMapsWith mk r' l' p) := by
-  cases r with
-  | some a =>
-    cases r' with
-    | none => exact hr.elim
-    | some a' =>
-      cases l with
-      | some b =>
-        cases l' with
-        | none => exact hl.elim
-        | some b' =>
-          simp only [mergeOptMapsWith]
-          exact okMap_eqv (hmk a a' b b' hr.1 hl.1 hr.2.1 hr.2.2 hl.2.1 hl.2.2)
-      | none =>
-        cases l' with
-        | some _ => exact hl.elim
-        | none => simp only [mergeOptMapsWith, OutEqv]; exact Eqv.map_iff.mpr hr.1
-  | none =>
-    cases r' with
-    | some _ => exact hr.elim
-    | none =>
-      cases l with
-      | none =>
-        cases l' with
-        | some _ => exact hl.elim
-        | none => simp only [mergeOptMapsWith, OutEqv]; exact Eqv.map_iff.mpr MEqv.nil
-      | some b =>
-        cases l' with
-        | none => exact hl.elim
-        | some b' =>
-          have hnil := hl.1.nil_iff
-          cases b with
-          | nil =>
-            have : b' = [] := hnil.mp rfl
-            subst this
-            simp only [mergeOptMapsWith, OutEqv]; exact Eqv.map_iff.mpr MEqv.nil
-          | cons hd tl =>
-            cases b' with
-            | nil => have := hnil.mpr rfl; cases this
-            | cons hd' tl' => simp [mergeOptMapsWith, OutEqv]
+/-- a conversion into a mapping that respects the equivalence and yields well-formed mappings -/
+def ConvCongr (conv : Val → Out KVs) : Prop :=
+  ∀ v v', Eqv v v' → WF v → WF v' → OutEqv MRel (conv v) (conv v')
+
+theorem convMerge_eqv (mk : KVs → KVs → TPath → Out KVs) (p : TPath) (hmk : MkCongr mk p) (conv : Val → Out KVs)
+    (hc : ConvCongr conv) {e e' o o' : Val} (he : Eqv e e') (ho : Eqv o o') (we : WF e) (we' : WF e') (wo : WF o) (wo' : WF o') :
+    OutEqv Eqv (convMerge mk conv e o p) (convMerge mk conv e' o' p) := by
+  simp only [convMerge]
+  refine OutEqv.bind (hc e e' he we we') (fun r r' hr => ?_)
+  refine OutEqv.bind (hc o o' ho wo wo') (fun l l' hl => ?_)
+  exact okMap_eqv (hmk r r' l l' hr.1 hl.1 hr.2.1 hr.2.2 hl.2.1 hl.2.2)
 
 theorem wf_dependsOnDefault : WF dependsOnDefault := by
   refine .map (by decide) ?_
@@ -145,16 +110,16 @@ theorem wf_dependsOnDefault : WF dependsOnDefault := by
     · cases hx; exact .bool _
     · cases hx
 
-theorem toBuild_eqv {v v' : Val} (h : Eqv v v') (wv : WF v) (wv' : WF v') : OptMRel (toBuild v) (toBuild v') := by
+theorem toBuild_eqv {v v' : Val} (h : Eqv v v') (wv : WF v) (wv' : WF v') : OutEqv MRel (toBuild v) (toBuild v') := by
   cases h with
-  | null => trivial
-  | bool b => trivial
-  | int i => trivial
-  | float s => trivial
-  | seqNil => trivial
-  | seqCons _ _ => trivial
+  | null => simp only [toBuild, OutEqv]; exact MRel.nil
+  | bool b => simp [toBuild, OutEqv]
+  | int i => simp [toBuild, OutEqv]
+  | float s => simp [toBuild, OutEqv]
+  | seqNil => simp [toBuild, OutEqv]
+  | seqCons _ _ => simp [toBuild, OutEqv]
   | str s =>
-    simp only [toBuild, OptMRel]
+    simp only [toBuild, OutEqv]
     have w : MWF [("context", Val.str s)] := by
       refine ⟨by simp [keys], ?_⟩
       intro k x hx
@@ -163,6 +128,6 @@ theorem toBuild_eqv {v v' : Val} (h : Eqv v v') (wv : WF v) (wv' : WF v') : OptM
       · cases hx; exact .str _
       · cases hx
     exact ⟨(Eqv.map_iff.mp (Eqv.refl _ (WF.map_iff.mpr w))), w, w⟩
-  | map h1 h2 => exact ⟨⟨h1, h2⟩, WF.map_iff.mp wv, WF.map_iff.mp wv'⟩
+  | map h1 h2 => simp only [toBuild, OutEqv]; exact ⟨⟨h1, h2⟩, WF.map_iff.mp wv, WF.map_iff.mp wv'⟩
 
 end CV.Deep
